@@ -37,10 +37,8 @@ import (
 	"verif/harness/vmx"
 )
 
-// avoid switch of the open finding C02-F09 (KNOWN_FINDINGS.d/C02.txt): honoured by the generator
-const avoidDiceTail = "computed_dice_tail"
-
-var genSwitches = []string{avoidDiceTail}
+// avoid switches of open findings that the generator honours (none at present)
+var genSwitches = []string{}
 
 type Step struct {
 	Prog  *gen.Node `json:"prog"`
